@@ -146,6 +146,10 @@ def judgeLine (cap : Nat) (line : String) : String :=
     match opOf o, two t with
     | some op, some (A, B) => judgeOp cap op A B rhs
     | _, _ => "DIFF parse bad-case-line"
+  | "opx" :: o :: t =>   -- exhaustive: every cell of the slab decomposition and of the grid
+    match opOf o, two t with
+    | some op, some (A, B) => judgeOp 1000000 op A B rhs
+    | _, _ => "DIFF parse bad-case-line"
   | "ie" :: t =>
     match two t with
     | some (A, B) => judgeIe A B rhs
@@ -158,6 +162,6 @@ open GeomV GeomV.C01 in
 def main (args : List String) : IO Unit := do
   let out ← IO.getStdout
   match args with
-  | ["judge"] => forEachLine fun l => out.putStrLn (judgeLine 400 l)
-  | ["judge", n] => forEachLine fun l => out.putStrLn (judgeLine (n.toNat?.getD 400) l)
+  | ["judge"] => forEachLine fun l => out.putStrLn (judgeLine 1000000 l)
+  | ["judge", n] => forEachLine fun l => out.putStrLn (judgeLine (n.toNat?.getD 1000000) l)
   | _ => IO.eprintln "usage: geomv_c01 judge [cap]"
